@@ -441,6 +441,18 @@ func (h *histState) step(op string) string {
 		return "ok"
 	case "revcomp":
 		return errs(h.sb.ReverseComplement())
+	case "diffwithfirst":
+		if h.al == nil {
+			return "na"
+		}
+		h.al.DiffWithFirst()
+		return "ok"
+	case "replacematch":
+		if h.al == nil {
+			return "na"
+		}
+		h.al.ReplaceMatchChars()
+		return "ok"
 	case "revcompseqs":
 		names := decNames(f[1])
 		for _, n := range names {
